@@ -118,12 +118,16 @@ func TestSA(t *testing.T) {
 				viol = append(viol, checkSA(tr, r, msg, nil, "path "+p.String())...)
 			}
 			for _, bp := range blobPaths {
-				for _, ep := range evSA {
+				for ei, ep := range evSA {
 					ev := &historypb.HistoryEvent{EventId: 3}
 					putSA(ev, ep, mixed)
 					msg := gen.New(r.md)
 					parent, f := gen.Descend(msg, bp)
 					blob := gen.EncodeEvents([]*historypb.HistoryEvent{ev})
+					if (ei+len(bp.String()))%3 == 2 {
+						blob = gen.EncodeEventsJSON([]*historypb.HistoryEvent{ev})
+						counts["sa_blob_cases_json"]++
+					}
 					if f.IsList() {
 						parent.Mutable(f).List().Append(protoreflect.ValueOfMessage(blob.ProtoReflect()))
 					} else {
@@ -147,7 +151,10 @@ func TestSA(t *testing.T) {
 					resp, _ := tin.Intercept(context.Background(), gen.New(r.m.In), &grpc.UnaryServerInfo{FullMethod: r.m.FullName}, func(ctx context.Context, req any) (any, error) { return msg, nil })
 					got, _ = resp.(proto.Message)
 				} else {
-					_, _ = tin.Intercept(context.Background(), msg, &grpc.UnaryServerInfo{FullMethod: r.m.FullName}, func(ctx context.Context, req any) (any, error) { got = req.(proto.Message); return gen.New(r.m.Out), nil })
+					_, _ = tin.Intercept(context.Background(), msg, &grpc.UnaryServerInfo{FullMethod: r.m.FullName}, func(ctx context.Context, req any) (any, error) {
+						got = req.(proto.Message)
+						return gen.New(r.m.Out), nil
+					})
 				}
 				counts["workflow_service_exclusion_cases"]++
 				classes = append(classes, "excl:"+r.String()+":"+p.String())
